@@ -376,7 +376,7 @@ func runC17(c *Ctx) {
 						kk, m, ok := c.wgKey(in)
 						return ok && m == "Done" && kk == k
 					}
-					doneAll := c.deferredBefore(t, start{t.Blocks[len(t.Blocks)-1], 0, ""}, isDone) || c.mustFollowOptQuietAll(t, isDone)
+					doneAll := c.deferredBefore(t, start{t.Blocks[len(t.Blocks)-1], 0, "", nil}, isDone) || c.mustFollowOptQuietAll(t, isDone)
 					hasDeferAtEntry := false
 					for _, in := range t.Blocks[0].Instrs {
 						if d, ok := in.(*ssa.Defer); ok && isDone(d) {
@@ -699,7 +699,7 @@ func (c *Ctx) mustFollowIterQuiet(fn *ssa.Function, s start, b Sel) bool {
 	}
 	be := ir.BackEdgesTo(h)
 	okv := true
-	ir.Walk(s.b, s.idx, be, func(in ssa.Instruction) bool {
+	ir.WalkCtx(s.b, s.idx, s.pred, be, func(in ssa.Instruction) bool {
 		if b(in) {
 			return false
 		}
